@@ -34,9 +34,13 @@ type c07Recipe struct {
 	build func(k func(jen.Code) jen.Code) jh.Outcome
 }
 
+// c07ForceNoFormat makes every recipe File render raw (used by C02's twin comparison; recipes run
+// sequentially under environment control, so a package variable is safe).
+var c07ForceNoFormat bool
+
 func c07File(noFormat bool, body func(f *jen.File)) jh.Outcome {
 	f := jen.NewFile("p")
-	f.NoFormat = noFormat
+	f.NoFormat = noFormat || c07ForceNoFormat
 	body(f)
 	return jh.RenderFile(f)
 }
